@@ -68,9 +68,11 @@ type FuncContract struct {
 	Derived         []string
 	Approx          []string
 	LocModel        bool
+	ChainEnsures    bool // "chain ensures": each postcondition may assume the ones listed before it
 	ViewsUnchecked  bool // "views unchecked": Slice may describe a view that extends beyond its parent (Slice itself checks nothing)
 	Fresh           []string
 	UseLemmas       []string
+	Instantiate     []string // "LABEL(e1, ..., en)": ground instances of induction lemmas assumed at entry
 	DynTypes        map[string]string // result name -> concrete struct type name
 }
 
@@ -96,6 +98,7 @@ type Induct struct {
 	Src   string
 	File  string
 	Line  int
+	Using []string // labels of earlier induction lemmas whose conclusions may be assumed in base and step
 }
 
 type Contracts struct {
@@ -254,13 +257,24 @@ func parseContractFile(cs *Contracts, pkgPath, file string) {
 			// induct [label] (a []int, b []int) n : P(n)
 			cur = nil
 			label, props, r := parseLabel(rest)
+			var using []string
+			if strings.HasPrefix(r, "using ") {
+				p := strings.Index(r, "(")
+				if p < 0 {
+					fatalf("%s:%d: bad induct directive", file, l.n)
+				}
+				// the variable list is the last parenthesised group before " n :"
+				p = strings.LastIndex(r[:strings.Index(r, ":")], "(")
+				using = splitTopLevel(strings.TrimPrefix(r[:p], "using "))
+				r = r[p:]
+			}
 			i := strings.Index(r, "(")
 			j := strings.Index(r, ")")
 			k := strings.Index(r, ":")
 			if i != 0 || j < 0 || k < j {
 				fatalf("%s:%d: bad induct directive", file, l.n)
 			}
-			ind := &Induct{Label: label, Props: props, File: file, Line: l.n}
+			ind := &Induct{Label: label, Props: props, File: file, Line: l.n, Using: using}
 			for _, p := range splitNames(r[i+1 : j]) {
 				f := strings.Fields(p)
 				if len(f) != 2 {
@@ -374,6 +388,8 @@ func parseFuncDirective(fc *FuncContract, word, rest, file string, line int) {
 		default:
 			fatalf("%s:%d: unknown loop directive %q", file, line, f[1])
 		}
+	case "chain":
+		fc.ChainEnsures = strings.TrimSpace(rest) == "ensures"
 	case "views":
 		fc.ViewsUnchecked = strings.TrimSpace(rest) == "unchecked"
 	case "panics":
@@ -387,6 +403,8 @@ func parseFuncDirective(fc *FuncContract, word, rest, file string, line int) {
 		if strings.TrimSpace(rest) == "causal-by-ensures" {
 			fc.CausalByEnsures = true
 		}
+	case "instantiate":
+		fc.Instantiate = append(fc.Instantiate, strings.TrimSpace(rest))
 	case "states":
 		fc.HasStates = true
 		if strings.TrimSpace(rest) != "none" {
